@@ -95,7 +95,8 @@ struct C20 : Property {
       filters.push_back(f);
     }
     static const int gaps[] = {0, 20, 500, 3000, 120000};
-    p["config"] = {{"szx", r.range(0, 6)}, {"gap_ms", gaps[r.below(5)]}};   // pause between one GET's conclusion and the next GET (libcoap caches a served body for some seconds)
+    bool server_blk = r.chance(0.6);
+    p["config"] = {{"szx", r.range(0, 6)}, {"server_blk", server_blk}, {"c_szx", (!server_blk || r.chance(0.3)) ? r.range(0, 6) : -1}, {"gap_ms", gaps[r.below(5)]}};   // pause between one GET's conclusion and the next GET (libcoap caches a served body for some seconds)
     p["table"] = table;
     p["ops"] = filters;
     json faults = json::array();
@@ -141,12 +142,25 @@ struct C20 : Property {
     {
       World::AsNode as(0);
       coap_context_set_block_mode(cctx, COAP_BLOCK_USE_LIBCOAP | COAP_BLOCK_SINGLE_BODY);
-      int szx = plan["config"].value("szx", 6);
-      coap_context_set_max_block_size(cctx, (size_t)16 << szx);
       coap_register_response_handler(cctx, resp_cb);
     }
+    // The Block2 size of a download is chosen by the sender of the body (the server's maximum block size) or asked for by the
+    // client with a Block2 option in its request (early negotiation); a client-side maximum block size has no influence on it.
+    int szx = plan["config"].value("szx", 6), c_szx = plan["config"].value("c_szx", -1);
+    {
+      World::AsNode as(1);
+      if (plan["config"].value("server_blk", true)) coap_context_set_max_block_size(sctx, (size_t)16 << szx);
+    }
+
     coap_session_t *sess = cx::new_client(w, 0, cctx, World::node_addr(1, 5683), COAP_PROTO_UDP);
     for (auto &f : plan["faults"]) w.faults.push_back(f.get<Fault>());
+    w.taps.push_back([&](const WireEv &e) {
+      if (e.kind != WireEv::DELIVER || e.to != 0) return;
+      r1::Msg m;
+      if (r1::decode_udp(e.d->data, m) != r1::ACCEPT) return;
+      const r1::Opt *b2 = m.find(r1::O_BLOCK2);
+      if (b2 && (r1::decode_uint(b2->val) >> 4) > 0) w.count("probe.block2_followup_blocks");
+    });
     bool nontrivial = false;
     size_t fi = 0;
     struct Fetch { Bytes tok; std::string full; std::string filt; };
@@ -219,6 +233,7 @@ struct C20 : Property {
           coap_add_option(p, COAP_OPTION_URI_PATH, 11, (const uint8_t *)".well-known");
           coap_add_option(p, COAP_OPTION_URI_PATH, 4, (const uint8_t *)"core");
           if (!filt.empty()) coap_add_option(p, COAP_OPTION_URI_QUERY, filt.size(), (const uint8_t *)filt.data());
+          if (c_szx >= 0) { uint8_t b2 = (uint8_t)c_szx; coap_add_option(p, COAP_OPTION_BLOCK2, c_szx ? 1 : 0, &b2); }
           if (coap_send(sess, p) != COAP_INVALID_MID && listing_ok) fetched.push_back(Fetch{tok, full, filt});
         }
       }
@@ -246,6 +261,11 @@ struct C20 : Property {
       for (unsigned char c : f.filt) needs_escape |= !(isalnum(c) || strchr("-._~!$&'()*+,;=:@/?", c));
       std::string cls = needs_escape ? "filter_needs_percent_escape" : "plain_filter";
       if (cw.codes[f.tok] != 0x45) {
+        // Under loss a block-wise GET may fail explicitly (e.g. 4.08 from the client's own re-assembly when a block request was
+        // retransmitted for so long that the server had dropped the body it was serving); only a fault-free run must succeed.
+        bool any_fault = false;
+        for (auto &ft : w.faults) any_fault |= ft.fired;
+        if (any_fault) { w.count("probe.get_failed_explicitly_under_faults"); continue; }
         if (!f.full.empty()) res.violate("R11.get_code", cls + "," + r1::code_str(cw.codes[f.tok]), strfmt("GET /.well-known/core?%s answered %s although the listing has %zu bytes", f.filt.c_str(), r1::code_str(cw.codes[f.tok]).c_str(), f.full.size()));
         continue;
       }
